@@ -2036,9 +2036,9 @@ fn is_single_line_comment(content: &str) -> bool {
             content.chars().skip(3).enumerate().find(|(_, c)| *c == '[')
         {
             content
-                .get(3..closing_bracket_index)
+                .get(3..3 + closing_bracket_index)
                 .map(|substring| substring.chars().all(|c| c == '='))
-                .unwrap_or(true)
+                .unwrap_or(false)
         } else {
             false
         }
